@@ -1,5 +1,6 @@
 import ShootVerif.Spec.GetSet
 import ShootVerif.Proofs.CtorMain
+import ShootVerif.Proofs.Directive
 /-!
 C03 — with -getset each unexported field gets exactly the accessors its `get`/`set` field directive
 and the type-level `getter`/`setter` directive call for (both when undirected, none for exported
@@ -155,3 +156,13 @@ example :
   decide
 
 end ShootVerif.GetSet
+
+namespace ShootVerif.Directive
+
+/-- C03, the field directive at the level of the doc comment: `shoot: def=<v>;get` is a getter request (and the default
+    `<v>`) for EVERY value text without `;` and newline — a `get` after a default of any shape is still read -/
+theorem C03_get_after_def (v : List Char) (hne : v ≠ []) (hv : ∀ c ∈ v, c ≠ ';' ∧ c ≠ '\n') :
+    parseDef ("shoot: def=".toList ++ (v ++ [';', 'g', 'e', 't'])) = some v ∧
+    (parseGetSet ("shoot: def=".toList ++ (v ++ [';', 'g', 'e', 't']))).1 = true := directive_def_then_kw v hne hv
+
+end ShootVerif.Directive
